@@ -71,7 +71,7 @@ func main() {
 	// ---- layer 1: scripted forwarder behind the real controller --------------------------------------------
 	// identical question (0x20 mixed case on one side), different transaction IDs: coalescing, per-waiter ID
 	add(&control.C09Params{Name: "L1/same-name", Layer: 1, Clients: C(cl(q(a, tA, 0x1001)), cl(q("A.C9.Test.", tA, 0x2002)))},
-		[]B{{0, 0}, {1, 0}, {0, 1}, {2, 0}, {1, 1}}, []B{{0, 0}, {1, 1}, {2, 0}, {0, 2}, {2, 1}, {1, 2}})
+		[]B{{0, 0}, {1, 0}, {0, 1}, {2, 0}, {1, 1}}, []B{{0, 0}, {1, 0}, {0, 1}, {2, 0}, {1, 1}, {0, 2}, {2, 1}, {1, 2}})
 	// the same system again, two environment deviations (own worker in the quick tier)
 	if !thorough {
 		add(&control.C09Params{Name: "L1/same-name/2dev", Layer: 1, Clients: C(cl(q(a, tA, 0x1001)), cl(q("A.C9.Test.", tA, 0x2002)))},
@@ -79,46 +79,46 @@ func main() {
 	}
 	// different names under one transaction ID
 	add(&control.C09Params{Name: "L1/diff-names-same-id", Layer: 1, Clients: C(cl(q(a, tA, 0x3003)), cl(q(b, tA, 0x3003)))},
-		[]B{{0, 0}, {1, 0}, {0, 1}, {2, 0}}, []B{{0, 0}, {1, 1}, {2, 0}, {0, 2}, {2, 1}, {1, 2}})
+		[]B{{0, 0}, {1, 0}, {0, 1}, {2, 0}}, []B{{0, 0}, {1, 0}, {0, 1}, {2, 0}, {1, 1}, {0, 2}, {2, 1}})
 	// one name, two types, one ID: the type is part of every key
 	add(&control.C09Params{Name: "L1/name-vs-type", Layer: 1, Clients: C(cl(q(a, tA, 0x3003)), cl(q(a, tAAAA, 0x3003)))},
-		[]B{{0, 0}, {1, 0}, {0, 1}, {2, 0}}, []B{{0, 0}, {1, 1}, {2, 0}, {0, 2}, {2, 1}})
+		[]B{{0, 0}, {1, 0}, {0, 1}, {2, 0}}, []B{{0, 0}, {1, 0}, {0, 1}, {2, 0}, {1, 1}, {0, 2}, {2, 1}})
 	// two queries per client, crossing: cache hits and coalescing mixed
 	add(&control.C09Params{Name: "L1/two-queries", Layer: 1, Clients: C(cl(q(a, tA, 0x0101), q(b, tA, 0x0102)), cl(q(b, tA, 0x0201), q(a, tA, 0x0202)))},
-		[]B{{0, 0}, {1, 0}, {0, 1}, {2, 0}}, []B{{0, 0}, {1, 1}, {2, 0}, {0, 2}, {2, 1}})
+		[]B{{0, 0}, {1, 0}, {0, 1}, {2, 0}}, []B{{0, 0}, {1, 0}, {0, 1}, {2, 0}, {1, 1}, {0, 2}, {2, 1}})
 	// idle eviction of the cached forwarder racing with a query
 	add(&control.C09Params{Name: "L1/evict", Layer: 1, Background: "evict", Behaviours: []string{"ok", "error", "slow"}, Clients: C(cl(q(a, tA, 0x0a0a)), cl(q(b, tA, 0x0b0b)))},
-		[]B{{0, 0}, {1, 0}, {0, 1}, {2, 0}, {1, 1}}, []B{{0, 0}, {1, 1}, {2, 1}, {3, 1}})
+		[]B{{0, 0}, {1, 0}, {0, 1}, {2, 0}, {1, 1}}, []B{{0, 0}, {1, 0}, {0, 1}, {2, 0}, {1, 1}, {3, 0}, {2, 1}, {3, 1}})
 	// retirement of all forwarders (configuration reload) racing with queries
 	add(&control.C09Params{Name: "L1/retire", Layer: 1, Background: "retire", Behaviours: []string{"ok", "error"}, Clients: C(cl(q(a, tA, 0x0a0a)), cl(q(b, tA, 0x0b0b)))},
-		[]B{{0, 0}, {1, 0}, {0, 1}, {2, 0}}, []B{{0, 0}, {1, 1}, {2, 0}, {3, 0}, {2, 1}})
+		[]B{{0, 0}, {1, 0}, {0, 1}, {2, 0}}, []B{{0, 0}, {1, 0}, {0, 1}, {2, 0}, {1, 1}, {3, 0}, {2, 1}})
 	add(&control.C09Params{Name: "L1/3-mixed", Layer: 1, Clients: C(cl(q(a, tA, 0x1001)), cl(q(a, tA, 0x2002)), cl(q(b, tA, 0x1001)))},
-		nil, []B{{0, 0}, {1, 1}, {2, 0}, {0, 2}})
+		nil, []B{{0, 0}, {1, 0}, {0, 1}, {2, 0}, {1, 1}, {0, 2}})
 	add(&control.C09Params{Name: "L1/3-evict", Layer: 1, Background: "evict", Behaviours: []string{"ok", "error"}, Clients: C(cl(q(a, tA, 0x0a0a)), cl(q(c, tA, 0x0c0c)), cl(q(b, tA, 0x0b0b)))},
-		nil, []B{{0, 0}, {1, 1}, {2, 0}, {3, 0}})
+		nil, []B{{0, 0}, {1, 0}, {0, 1}, {2, 0}, {1, 1}, {3, 0}})
 	add(&control.C09Params{Name: "L1/3-retire", Layer: 1, Background: "retire", Behaviours: []string{"ok", "error"}, Clients: C(cl(q(a, tA, 0x0a0a)), cl(q(c, tA, 0x0c0c)), cl(q(b, tA, 0x0b0b)))},
-		nil, []B{{0, 0}, {1, 1}, {2, 0}, {3, 0}})
+		nil, []B{{0, 0}, {1, 0}, {0, 1}, {2, 0}, {1, 1}, {3, 0}})
 
 	// ---- layer 2: real DoUDP + udpConnPool over datagram sockets, tcp+udp upstream (fallback to real DoTCP) ----
 	// one client, two questions under one ID, the second reuses the pooled socket
 	add(&control.C09Params{Name: "L2/udp-reuse-same-id", Layer: 2, Clients: C(cl(q(a, tA, 0x4004), q(b, tA, 0x4004)))},
-		[]B{{0, 0}, {1, 0}, {0, 1}, {2, 0}}, []B{{0, 0}, {1, 1}, {0, 2}, {2, 1}})
+		[]B{{0, 0}, {1, 0}, {0, 1}, {2, 0}}, []B{{0, 0}, {1, 0}, {0, 1}, {2, 0}, {1, 1}, {0, 2}, {2, 1}})
 	// two clients, different names, one ID, concurrently (two sockets) and then the sockets are reused
 	add(&control.C09Params{Name: "L2/udp-2clients", Layer: 2, Clients: C(cl(q(a, tA, 0x4004)), cl(q(b, tA, 0x4004), q(c, tA, 0x4004)))},
-		[]B{{0, 0}, {1, 0}, {0, 1}, {2, 0}}, []B{{0, 0}, {1, 1}, {2, 0}, {0, 2}})
+		[]B{{0, 0}, {1, 0}, {0, 1}, {2, 0}}, []B{{0, 0}, {1, 0}, {0, 1}, {2, 0}, {1, 1}, {0, 2}})
 	add(&control.C09Params{Name: "L2/udp-same-name", Layer: 2, Clients: C(cl(q(a, tA, 0x4004)), cl(q(a, tA, 0x4114)))},
-		[]B{{0, 0}, {1, 0}, {0, 1}, {2, 0}}, []B{{0, 0}, {1, 1}, {2, 0}, {0, 2}})
+		[]B{{0, 0}, {1, 0}, {0, 1}, {2, 0}}, []B{{0, 0}, {1, 0}, {0, 1}, {2, 0}, {1, 1}, {0, 2}, {2, 1}})
 	add(&control.C09Params{Name: "L2/3-clients", Layer: 2, Clients: C(cl(q(a, tA, 0x4004)), cl(q(b, tA, 0x4004)), cl(q(a, tA, 0x4224), q(c, tA, 0x4004)))},
 		nil, []B{{0, 0}, {1, 0}, {0, 1}, {2, 0}, {1, 1}})
 
 	// ---- layer 3: real DoTCP (connPool + pipelinedConn) over a stream ----------------------------------------
 	add(&control.C09Params{Name: "L3/tcp-2clients", Layer: 3, Clients: C(cl(q(a, tA, 0x5005)), cl(q(b, tA, 0x5005)))},
-		[]B{{0, 0}, {1, 0}, {0, 1}}, []B{{0, 0}, {1, 1}, {0, 2}, {2, 0}})
+		[]B{{0, 0}, {1, 0}, {0, 1}}, []B{{0, 0}, {1, 0}, {0, 1}, {2, 0}, {1, 1}, {0, 2}})
 	// ID reuse on the pipelined connection: the second question of client 0 gets the ID of its first
 	add(&control.C09Params{Name: "L3/tcp-seq-reuse", Layer: 3, Clients: C(cl(q(a, tA, 0x5005), q(b, tA, 0x5115)), cl(q(c, tA, 0x5005)))},
-		[]B{{0, 0}, {1, 0}, {0, 1}}, []B{{0, 0}, {1, 1}, {0, 2}})
+		[]B{{0, 0}, {1, 0}, {0, 1}}, []B{{0, 0}, {1, 0}, {0, 1}, {2, 0}, {1, 1}, {0, 2}})
 	add(&control.C09Params{Name: "L3/3-clients", Layer: 3, Clients: C(cl(q(a, tA, 0x5005)), cl(q(b, tA, 0x5005)), cl(q(c, tA, 0x5005)))},
-		nil, []B{{0, 0}, {1, 0}, {0, 1}, {1, 1}})
+		nil, []B{{0, 0}, {1, 0}, {0, 1}, {2, 0}, {1, 1}})
 
 	p := &vdrive.Plan{
 		Scenarios:      scs,
